@@ -1383,7 +1383,15 @@ class Exec:
                 out.append((x, ('unknown', new_uid())))
                 continue
             f = v[0]
-            args = tuple(v[1:1 + len(n.args)])
+            args = []
+            for a in v[1:1 + len(n.args)]:
+                if a[0] == 'star' and a[1][0] == 'tuple' and not any(e[0] == 'star' for e in a[1][1]):
+                    args += list(a[1][1])          # f(*(x, y)) == f(x, y)
+                elif a[0] == 'star' and a[1][0] == 'list' and not any(e[0] == 'star' for e in a[1][2]):
+                    args += list(a[1][2])
+                else:
+                    args.append(a)
+            args = tuple(args)
             kws = tuple((k.arg if k.arg is not None else '**', val) for k, val in zip(n.keywords, v[1 + len(n.args):]))
             if f == ('name', 'dict') and not args and all(k != '**' for k, _ in kws):
                 out.append((x, ('dict', new_uid(), tuple((('const', k), val) for k, val in kws))))
